@@ -407,18 +407,18 @@ def run(tier, is_known):
         plan = [("req", FOLDERS, FILES, (3, 3), 5, 400000, 900), ("act", FOLDERS, FILES, (1, 0), 5, 300000, 600),
                 ("api", FOLDERS, FILES, (1, 1), 5, 300000, 600), ("req", ["f1"], ["a.txt"], (0, 1), 8, 300000, 600)]
     else:
-        plan = [("req", ["f1"], FILES, (1, 1), 4, 30000, 40), ("act", ["f1"], FILES, (1, 1), 4, 30000, 25),
-                ("api", FOLDERS[:1] + ["f2"], FILES[:1], (1, 1), 4, 30000, 25), ("req", FOLDERS, FILES, (3, 3), 3, 30000, 30)]
+        plan = [("req", ["f1"], FILES, (1, 1), 4, 30000, 150), ("act", ["f1"], FILES, (1, 1), 4, 30000, 150),
+                ("api", FOLDERS[:1] + ["f2"], FILES[:1], (1, 1), 4, 30000, 150), ("req", FOLDERS, FILES, (3, 3), 3, 30000, 150)]
     # start states other than the empty file system (a name deleted and created again; a deleted folder holding live and deleted
     # files), node power events and the flat file route
     RE = [("create_file", "f1", "a.txt", False), ("delete_file", "f1", "a.txt"), ("create_file", "f1", "a.txt", False)]
     DF = [("create_file", "f1", "a.txt", False), ("create_file", "f1", "b.txt", False), ("delete_file", "f1", "a.txt"), ("delete_folder", "f1")]
     th = tier == "thorough"
     plan = [p + ((), False, False) for p in plan]
-    plan += [("req", ["f1"], FILES, (1, 1), 5 if th else 3, 100000, 300 if th else 30, RE, False, False),
-             ("req", ["f1"], FILES[:1], (1, 1), 5 if th else 3, 100000, 300 if th else 30, DF, False, True),
-             ("req", ["f1"], FILES[:1], (1, 1), 6 if th else 4, 100000, 300 if th else 30, (), True, True),
-             ("act", ["f1"], FILES, (2, 2), 5 if th else 3, 100000, 300 if th else 30, RE, True, False)]
+    plan += [("req", ["f1"], FILES, (1, 1), 5 if th else 3, 100000, 300 if th else 150, RE, False, False),
+             ("req", ["f1"], FILES[:1], (1, 1), 5 if th else 3, 100000, 300 if th else 150, DF, False, True),
+             ("req", ["f1"], FILES[:1], (1, 1), 6 if th else 4, 100000, 300 if th else 150, (), True, True),
+             ("act", ["f1"], FILES, (2, 2), 5 if th else 3, 100000, 300 if th else 150, RE, True, False)]
     viols = []
     tot = {"states": 0, "transitions": 0}
     per = []
